@@ -87,3 +87,29 @@ def register(reg):
         ensures=["uf_unquote(result) == value"],
         raises={},
     )
+    _register_suitable_for(reg)
+
+
+def _register_suitable_for(reg):
+    """Rule.suitable_for: a rule is used for building (and for the defaults redirect) exactly when the method fits, every
+    argument of the rule is supplied by its defaults or by the values, and no value contradicts a default -- `0`, `''` and
+    other falsy values are values like any other"""
+    RS = reg.model("RuleSuit", cls="werkzeug/routing/rules.py:Rule",
+                   fields={"methods": "Optional[Set[str]]", "defaults": "Dict[str, int]", "arguments": "List[str]"})
+    # (a rule without defaults carries None; `self.defaults or ()` treats None and the empty dict alike -- modelled: a dict)
+    reg.spec("dflt_has(self, k)", "k in self.defaults")
+    reg.spec("suit_spec(self, values, method)",
+             "(method is None or self.methods is None or method in self.methods) and "
+             "forall(0, len(self.arguments), lambda i: dflt_has(self, self.arguments[i]) or self.arguments[i] in values) and "
+             "forall_s(lambda k: implies(dflt_has(self, k) and k in values, self.defaults[k] == values[k]))")
+    reg.contract(
+        "werkzeug/routing/rules.py:Rule.suitable_for", prop="C04,C12", self_model=RS,
+        params={"values": "Dict[str, int]", "method": "Optional[str]"}, returns="bool", modifies=[],
+        ensures=["result == suit_spec(self, values, method)"],
+        raises={},
+        loops={0: {"inv": ["forall(0, _i, lambda i: dflt_has(self, self.arguments[i]) or self.arguments[i] in values)"]},
+               # (ghost_dict_key(j): the j-th key of the iteration over defaults.items() -- a trusted enumeration of the dict)
+               1: {"inv": ["forall(0, len(self.arguments), lambda i: dflt_has(self, self.arguments[i]) or self.arguments[i] in values)",
+                           "forall(0, _i, lambda j: not (ghost_dict_key(j) in values and "
+                           "       self.defaults[ghost_dict_key(j)] != values[ghost_dict_key(j)]))"]}},
+    )
